@@ -4,7 +4,10 @@
 //! then "kills the server" (the calls still in flight are never resumed, the cache object is
 //! abandoned) and opens a fresh `DiskCache` on the same directory.
 //!
-//! legs:  `disk`  case   = ( cap order ( init ... ) ( thread ... ) ( tid ... ) )
+//! legs:  `disk`  case   = ( cap order ( init ... ) ( thread ... ) ( tid ... ) [ ( key ... ) ] )
+//!                         optional last list: keys whose shard directory <root>/x/y is made a mount point (a tiny
+//!                         tmpfs in a private mount namespace), so that rename(temp, final) fails with EXDEV;
+//!                         the result is ( skipped ) where mounting is not possible
 //!                init   = ( main key pid plen elen mtime ) | ( pp key pid plen elen mtime )
 //!                       | ( raw path pid plen elen mtime )      any file, path relative to the root
 //!                thread = ( put key pid plen elen nchunks fail ) | ( get key )
@@ -223,6 +226,45 @@ impl Ctl {
     }
 }
 
+// ------------------------------------------------------------------ mount points inside the cache
+
+/// enter a private mount namespace once per process (as harness/src/bin/c17.rs does)
+fn private_mounts() -> bool {
+    static ONCE: std::sync::OnceLock<bool> = std::sync::OnceLock::new();
+    *ONCE.get_or_init(|| unsafe {
+        if libc::unshare(libc::CLONE_NEWNS) != 0 {
+            return false;
+        }
+        let root = std::ffi::CString::new("/").unwrap();
+        libc::mount(std::ptr::null(), root.as_ptr(), std::ptr::null(), libc::MS_REC | libc::MS_PRIVATE, std::ptr::null()) == 0
+    })
+}
+
+/// a tmpfs of `pages` 4 KiB pages mounted at a directory; detached on drop
+struct Tmpfs(PathBuf);
+impl Tmpfs {
+    fn mount(at: &Path, pages: u64) -> Option<Tmpfs> {
+        std::fs::create_dir_all(at).ok()?;
+        let src = std::ffi::CString::new("tmpfs").unwrap();
+        let tgt = std::ffi::CString::new(at.as_os_str().as_bytes()).unwrap();
+        let opt = std::ffi::CString::new(format!("size={}", pages * 4096)).unwrap();
+        let r = unsafe { libc::mount(src.as_ptr(), tgt.as_ptr(), src.as_ptr(), 0, opt.as_ptr() as *const libc::c_void) };
+        if r == 0 {
+            Some(Tmpfs(at.to_owned()))
+        } else {
+            None
+        }
+    }
+}
+impl Drop for Tmpfs {
+    fn drop(&mut self) {
+        let tgt = std::ffi::CString::new(self.0.as_os_str().as_bytes()).unwrap();
+        unsafe {
+            libc::umount2(tgt.as_ptr(), libc::MNT_DETACH);
+        }
+    }
+}
+
 // ------------------------------------------------------------------ one case
 
 #[derive(Clone)]
@@ -401,6 +443,28 @@ fn run_case(case: &Sx) -> Sx {
     let td = tempfile::Builder::new().prefix("vh-c06-").tempdir_in("/dev/shm").unwrap();
     let root = td.path().join("cache");
     std::fs::create_dir_all(&root).unwrap();
+
+    // shard directories on another file system; declared after `td` so that they are detached before it is removed
+    let mut mounts: Vec<Tmpfs> = vec![];
+    if case.list().len() > 5 {
+        for k in case.arg(5).list() {
+            let key = keystr(k);
+            if key.len() < 2 {
+                return Sx::L(vec![Sx::sym("bad_key")]);
+            }
+            let at = root.join(&key[0..1]).join(&key[1..2]);
+            if mounts.iter().any(|m| m.0 == at) {
+                continue;
+            }
+            if !private_mounts() {
+                return Sx::L(vec![Sx::sym("skipped")]);
+            }
+            match Tmpfs::mount(&at, 16) {
+                Some(m) => mounts.push(m),
+                None => return Sx::L(vec![Sx::sym("skipped")]),
+            }
+        }
+    }
 
     let mut known: Vec<Known> = vec![];
     let mut mkeys: Vec<String> = vec![];
@@ -685,6 +749,7 @@ fn run_case(case: &Sx) -> Sx {
     drop(cache2);
     drop(cache);
     rt.shutdown_timeout(Duration::from_secs(5));
+    drop(mounts);
     Sx::L(out)
 }
 
@@ -716,6 +781,8 @@ fn main() {
         libc::signal(libc::SIGXFSZ, libc::SIG_IGN);
     }
     let leg = std::env::args().nth(1).unwrap_or_default();
+    // before any other thread exists: threads inherit the mount namespace of their creator
+    let _ = private_mounts();
     match leg.as_str() {
         "size" => vh::run_lines(run_size),
         _ => vh::run_lines(run_case),
